@@ -334,6 +334,17 @@ func free(t *testing.T, rng *emit.Rand, batch int, withDeleter bool) (string, ma
 				time.Sleep(time.Microsecond)
 			}
 		}
+		// transient datastore failures while the writers run: a run of N consecutive failing flush commits
+		// (the loop retries with a growing pause; whatever was appended before a Sync returned must be readable,
+		// and nothing may be dropped when the datastore recovers). The readers then poll at the scale of the
+		// retry pauses, and at most 300 times each, so the observation log stays small.
+		failing := false
+		if rng.Chance(30) {
+			nf := []int{2, 5, 9, 13}[rng.Intn(4)]
+			e.ds.FailHdrFrom, e.ds.FailHdrN = e.ds.HdrCommits()+rng.Intn(3), nf
+			descr["failing_flush_commits"] = nf
+			failing = true
+		}
 		all := randBatches(rng, init[len(init)-1], 8+rng.Intn(6))
 		if base > 1 {
 			cut := 1 + uint64(rng.Intn(int(base-1))) // [1..cut] and [cut+1..base-1]
@@ -419,10 +430,15 @@ func free(t *testing.T, rng *emit.Rand, batch int, withDeleter bool) (string, ma
 		for ri := 0; ri < nr; ri++ {
 			rwg.Add(1)
 			step := time.Duration(1+rng.Intn(3)) * time.Microsecond
+			if failing {
+				step = time.Duration(1+rng.Intn(3)) * 20 * time.Millisecond
+			}
 			go func(ri int) {
 				defer rwg.Done()
 				for {
-					robs[ri] = append(robs[ri], e.observe())
+					if !failing || len(robs[ri]) < 300 {
+						robs[ri] = append(robs[ri], e.observe())
+					}
 					select {
 					case <-done:
 						return
